@@ -1,5 +1,5 @@
 """Registry: property id -> check function(ctx) -> exit code."""
-from checks import tracker, sshdfam, sshdproc, conc, healthchk
+from checks import tracker, sshdfam, sshdproc, conc, healthchk, framingchk
 
 
 def _tracker(prop):
@@ -47,3 +47,11 @@ def _c18(ctx):
 
 
 REGISTRY["C18"] = _c18
+
+
+def _c12(ctx):
+    cov = framingchk.run(ctx)
+    return ctx.finish("model_checking", cov, framingchk.ASSUME)
+
+
+REGISTRY["C12"] = _c12
